@@ -4,8 +4,8 @@ tree the patch was applied to. Idempotent."""
 import glob, re
 for f in glob.glob('/verif/seeded/*/demo.py'):
     s = open(f).read()
-    s2 = re.sub(r'"/tmp/w[t234]_c\d\d/src"', '(__import__("os").environ.get("SEEDED_TREE", "/repo") + "/src")', s)
-    s2 = re.sub(r'"/tmp/w[t234]_c\d\d"', '__import__("os").environ.get("SEEDED_TREE", "/repo")', s2)
+    s2 = re.sub(r'"/tmp/w[t2345]+_[cC]\d\d/src"', '(__import__("os").environ.get("SEEDED_TREE", "/repo") + "/src")', s)
+    s2 = re.sub(r'"/tmp/w[t2345]+_[cC]\d\d"', '__import__("os").environ.get("SEEDED_TREE", "/repo")', s2)
     s2 = re.sub(r'^(WORKTREE|TREE|ROOT|REPO|HERE|WT) = Path\(__file__\)\.resolve\(\)\.parent$', r'\1 = Path(__import__("os").environ.get("SEEDED_TREE", "/repo"))', s2, flags=re.M)
     if s2 != s:
         open(f, 'w').write(s2)
